@@ -100,7 +100,7 @@ func checkC18(c *Check) {
 	waived := map[string]string{"v2Service.Dependencies": "declared for documentation/ordering only; not part of the on-chain manifest"}
 	read := map[string]bool{}
 	for _, fn := range []*ssa.Function{man, dg} {
-		for _, g := range fnAndClosures(fn) {
+		for _, g := range fnAndClosuresDeep(fn) {
 			eachInstr(g, func(i ssa.Instruction) {
 				switch x := i.(type) {
 				case *ssa.FieldAddr:
@@ -233,7 +233,7 @@ func checkC18(c *Check) {
 	// group requirements
 	{
 		okA, okS := false, false
-		eachInstr(dg, func(i ssa.Instruction) {
+		eachInstrDeep(dg, func(i ssa.Instruction) {
 			if st, ok := i.(*ssa.Store); ok {
 				a := Sym(st.Addr)
 				v := Sym(st.Val)
